@@ -236,6 +236,12 @@ class HeapMixin(object):
       is_ref = kind.tag in ('ref', 'exc', 'list', 'dict', 'set', 'tuple')
       arr = st.harr((owner, name), kind.sort(), is_ref=is_ref, owned=getattr(kind, 'owned', False))
       term = z3.Select(arr, obj.t)
+      if kind.tag in ('list', 'dict', 'set', 'tuple') and (owner, name) in st.private_keys:
+        # remembered so that a later havoc by opaque user code can state "this private container kept its contents"
+        # as a ground fact about this very object (besides the quantified frame axiom)
+        seen = st.ghost.get('$private_reads', frozenset())
+        if len(seen) < 40:
+          st.ghost['$private_reads'] = seen | {((owner, name), obj.t)}
       if is_ref and z3.is_const(arr) and arr.decl().name().startswith('H0_'):
         # ground instance of the pre-state freshness axiom (saves the solver an instantiation)
         st.axiom(z3.Implies(obj.t < ALLOC_BASE_, z3.And(term >= 0, term < ALLOC_BASE_)))
